@@ -3,6 +3,7 @@ both sides of every exclusion rule, every node kind, optional Git layer."""
 
 import os
 import shutil
+import subprocess
 from pathlib import Path
 
 from hypothesis import strategies as st
@@ -67,7 +68,9 @@ def tree_spec(draw, git=None, max_nodes=22):
                     continue
                 lic_stems.add(stem)
                 lic_stems.add(name)
-        kind = draw(st.sampled_from(["text"] * 7 + ["empty", "binary", "symlink", "symlink"]))
+        kind = draw(st.sampled_from(["text"] * 14 + ["empty", "empty", "binary", "binary", "symlink", "symlink", "symlink", "symlink", "socket"]))
+        if kind == "socket" and (path.split("/")[0] == "LICENSES" or name.endswith(".license") or name == "REUSE.toml"):
+            kind = "text"
         if kind == "symlink" and path.split("/")[0] == "LICENSES":
             # glob('LICENSES/**') follows symlinks: a link to a directory yields
             # the same licence text twice and aborts the tool (not C03's subject)
@@ -84,6 +87,8 @@ def tree_spec(draw, git=None, max_nodes=22):
             nodes[path] = ("empty",)
         elif kind == "binary":
             nodes[path] = ("binary", b"\x00\x01\x02\xff\xfebin\x00")
+        elif kind == "socket":
+            nodes[path] = ("socket",)  # not a regular file: never a covered file, whatever its name
         else:
             target = draw(st.sampled_from(["a.py", "src", ".", "nonexistent", "/etc/hostname", "../outside-sentinel/file", "d/a.py", "LICENSES"]))
             nodes[path] = ("symlink", target)
@@ -154,6 +159,8 @@ def materialise(root: Path, spec, git_top: Path = None) -> None:
             files[p] = v[1]
         elif v[0] == "empty":
             files[p] = b""
+        elif v[0] == "socket":
+            files[p] = ("socket",)
         else:
             files[p] = ("symlink", v[1])
     g = spec.get("git")
@@ -212,6 +219,8 @@ def all_paths(root: Path):
                 if r == ".git":
                     continue
                 walk(Path(e.path), r)
+            elif not e.is_file(follow_symlinks=False):
+                out.append((r, "special", 0))
             else:
                 out.append((r, "file", e.stat(follow_symlinks=False).st_size))
 
@@ -235,4 +244,9 @@ def git_ignored(root: Path, relpaths) -> set:
 
 
 def copytree(src: Path, dst: Path) -> None:
-    shutil.copytree(src, dst, symlinks=True)
+    # (cp -a also re-creates sockets, which shutil.copytree cannot)
+    p = subprocess.run(["cp", "-a", str(src), str(dst)], capture_output=True, check=False)
+    if p.returncode:
+        from ..core import HarnessError
+
+        raise HarnessError(f"cp -a failed: {p.stderr.decode()[:300]}")
